@@ -28,9 +28,14 @@ ObsA == Run(Defs[d].cmd, ArgvA)
 ObsB == Run(Defs[d].cmd, ArgvB)
 
 \* the property quantifies over successful lines; a failing line must at least stay failing
-SpellingsAgree == IF ObsA.outcome = "Ok" THEN ObsEq(ObsA, ObsB) /\ ObsEq(ObsB, ObsA) ELSE ObsB.outcome = ObsA.outcome
+\* (a short flag subcommand inside a group of short flags hands its position on to the subcommand's parser, a detached
+\* one starts counting afresh: those spellings agree up to argument indices)
+NoIdx == \E i \in 1..Len(picks) : Els[picks[i][1]].noidx
+A2 == IF NoIdx THEN StripIdx(ObsA) ELSE ObsA
+B2 == IF NoIdx THEN StripIdx(ObsB) ELSE ObsB
+SpellingsAgree == IF ObsA.outcome = "Ok" THEN ObsEq(A2, B2) /\ ObsEq(B2, A2) ELSE ObsB.outcome = ObsA.outcome
 \* an ambiguous prefix is never silently resolved to one of several candidates
 HasAmb == \E i \in 1..Len(picks) : Els[picks[i][1]].amb
 AmbiguousNeverResolved == HasAmb => ObsB.outcome = "Err"
-Emit == EmitOn => PrintT(<<"REPLAY", ToJson([d |-> d, a |-> ArgvA, b |-> ArgvB, obs |-> ObsB, amb |-> HasAmb])>>)
+Emit == EmitOn => PrintT(<<"REPLAY", ToJson([d |-> d, a |-> ArgvA, b |-> ArgvB, obs |-> ObsB, amb |-> HasAmb, noidx |-> NoIdx])>>)
 =============================================================================
